@@ -11,6 +11,7 @@ global size_of usize == 8; // assumption: 64-bit target
 //@@include spec_mem.rs
 //@@include lemmas_list.rs
 //@@include spec_ops.rs
+//@@include lemmas_det.rs
 //@@include shim_unsync.rs
 
 /// assumption (x86_64 / every 64-bit Rust target): u64 and AtomicU64 are 8 bytes, 8-aligned
@@ -174,6 +175,7 @@ impl Arena {
 // ---- list traversal -----------------------------------------------------------------------------------------
 
 //@@fn file=unsync.rs scope="impl Arena {" name=find_position xlate=unsync st=ref props=C10
+//@attr #[verifier::spinoff_prover]
 //@contract @find_position
 //@before 1 /^\s*loop/
     let ghost mut idx: int = -1;
@@ -209,6 +211,7 @@ impl Arena {
 //@@end
 
 //@@fn file=unsync.rs scope="impl Arena {" name=find_prev_and_next xlate=unsync st=ref props=C10
+//@attr #[verifier::spinoff_prover]
 //@contract @find_prev_and_next
 //@before 1 /^\s*loop/
     let ghost mut idx: int = -1;
@@ -246,6 +249,7 @@ impl Arena {
 // ---- release into the free list ---------------------------------------------------------------------------
 
 //@@fn file=unsync.rs scope="impl Arena {" name=pessimistic_dealloc xlate=unsync st=mut props=C10,C01,C20
+//@attr #[verifier::spinoff_prover]
 //@closure
   b == (val <= next_node_size)
 //@contract @pessimistic_dealloc
@@ -284,6 +288,7 @@ impl Arena {
 //@@end
 
 //@@fn file=unsync.rs scope="impl Arena {" name=optimistic_dealloc xlate=unsync st=mut props=C10,C01,C20
+//@attr #[verifier::spinoff_prover]
 //@closure
   b == (val >= next_node_size)
 //@contract @optimistic_dealloc
@@ -335,6 +340,7 @@ impl Arena {
 // ---- allocation from the free list (slow paths) -----------------------------------------------------------------
 
 //@@fn file=unsync.rs scope="impl Arena {" name=alloc_slow_path_pessimistic xlate=unsync st=mut props=C01,C03,C04,C08,C09,C10,C20
+//@attr #[verifier::spinoff_prover]
 //@closure
   b == (val <= next_node_size)
 //@contract @alloc_slow_path_pessimistic
@@ -397,6 +403,7 @@ impl Arena {
 //@@end
 
 //@@fn file=unsync.rs scope="impl Arena {" name=alloc_slow_path_optimistic xlate=unsync st=mut props=C01,C03,C04,C08,C09,C10,C20
+//@attr #[verifier::spinoff_prover]
 //@contract @alloc_slow_path_optimistic
 //@before 1 /let sentinel = st\.load\(CellRef::Sentinel\);/
     let ghost s0 = st@;
@@ -458,6 +465,7 @@ impl Arena {
 // ---- discard_freelist ----------------------------------------------------------------------------------------------
 
 //@@fn file=unsync.rs scope="impl Arena {" name=discard_freelist_in xlate=unsync st=mut props=C20,C10
+//@attr #[verifier::spinoff_prover]
 //@contract @discard_freelist_in
 //@loop 1
       invariant
@@ -503,6 +511,7 @@ impl Arena {
 // ---- top-level allocation -------------------------------------------------------------------------------------------
 
 //@@fn file=unsync.rs scope="impl Arena {" name=alloc_bytes_in xlate=unsync st=mut props=C01,C03,C04,C08,C09,C10,C20
+//@attr #[verifier::spinoff_prover]
 //@contract @alloc_bytes_in
 //@before 1 /let want = /
     let ghost s0 = st@;
@@ -515,6 +524,7 @@ impl Arena {
 //@@end
 
 //@@fn file=unsync.rs scope="impl Arena {" name=alloc_in xlate=unsync st=mut props=C01,C03,C04,C08,C09,C10,C20
+//@attr #[verifier::spinoff_prover]
 //@contract @alloc_in
 //@before 1 /let align_offset = align_offset::<T>\(allocated\);/
     let ghost s0 = st@;
@@ -536,6 +546,7 @@ impl Arena {
 //@@end
 
 //@@fn file=unsync.rs scope="impl Arena {" name=alloc_aligned_bytes_in xlate=unsync st=mut props=C01,C03,C04,C09,C10,C20
+//@attr #[verifier::spinoff_prover]
 //@contract @alloc_aligned_bytes_in
 //@before 1 /let aligned_offset = align_offset::<T>\(allocated\);/
     let ghost s0 = st@;
@@ -555,6 +566,7 @@ impl Arena {
 // ---- release, discard, rewind, accessors (trait methods) ---------------------------------------------------------------
 
 //@@fn file=unsync.rs scope="impl Allocator for Arena {" name=dealloc xlate=unsync st=mut props=C01,C10,C13,C20
+//@attr #[verifier::spinoff_prover]
 //@contract @dealloc
 //@before 1 /st\.hdr\.allocated = offset;/
       let ghost s0 = st@;
